@@ -115,9 +115,10 @@ Proof.
   unfold so_set. kp.
   all: try (apply kui; intros i Hi; now apply dirty_ok_fold).
   apply kui. intros i Hi.
-  destruct (fold_set_val_fields (as_dict kvs) i) as (Hd & Hp & _). cbn in Hd, Hp.
+  set (kw := filter (fun cv : nat * val => is_col (fst cv)) (as_dict kvs)).
+  destruct (fold_set_val_fields kw i) as (Hd & Hp & _). cbn in Hd, Hp.
   unfold dirty_ok, has_pending in *. cbn.
-  destruct (as_dict kvs) as [|kv r] eqn:E.
+  destruct kw as [|kv r] eqn:E.
   - cbn. exact Hi.
   - destruct (pending_update (kv :: r) (i_pending i)) eqn:E2; [|reflexivity].
     exfalso. eapply pending_update_nonempty; [|exact E2]. left. discriminate.
